@@ -117,7 +117,10 @@ def ob_write(report, kind):
         ex, fn, res = run(fname)
         hf, rf, mf = struct_fields(src, Hdr), struct_fields(src, Raw), struct_fields(src, Msg)
         n_ok = 0
-        msg = 'gen.1'                      # upvar 1 = the message
+        ups = [i for i, t in ex.upvar_types(fn).items() if re.search(r'\b' + Msg + r'<', t)]
+        if len(ups) != 1:
+            raise NotFound(f'{fname}: the {Msg} parameter among the upvars {ex.upvar_types(fn)}')
+        msg = f'gen.{ups[0]}'              # the message parameter, found by its type
         head, body_ = f'{msg}.{mf.index("head")}', f'{msg}.{mf.index("body")}'
         for r in res:
             if r.tag in ('panic', 'diverge'):
